@@ -352,7 +352,7 @@ def lex_word_candidates(maxlen):
     special = ['inf', 'Inf', 'INF', 'infinity', 'Infinity', 'nan', 'NaN', 'NAN', 'true', 'false', 'True', 'FALSE', '0x7fffffffffffffff', '0x8000000000000000', '0xffffffffffffffffff', '9223372036854775807', '9223372036854775808', '99999999999999999999', '0X1f', '1_000', '0x', '0xg', '1e400', '1e-400', '4.9e-324', '1.7976931348623157e308', '0.1', '00012', '0x00ff', '1e5', '1E5', '1.e5', '.5e1', '5.', 'inf1', 'nanx', 'infinit']
     for s in itertools.chain(special, ("".join(t) for n in range(1, maxlen + 1) for t in itertools.product(chars, repeat=n))):
         if True:
-            for src in (s, s + "-" + s, s + "+" + s, "a-" + s, s + "e-3", "0x" + s, s + "-1", s + "+9", "-" + s, "+" + s):
+            for src in (s, s + "-" + s, s + "+" + s, "a-" + s, s + "e-3", "0x" + s, s + "-1", s + "+9", "-" + s, "+" + s, "-" + s + "^2"):
                 if not ok.match(src):
                     continue
                 segs = re.split(r"([+-])", src)
@@ -401,7 +401,7 @@ def c07(chk):
     if chk.tier == "quick":
         runs = [(3, "small"), (2, "medium")]
     else:
-        runs = [(3, "large"), (4, "small")]
+        runs = [(3, "medium"), (2, "large"), (4, "small")]
     for maxlen, sepset in runs:
         info, summ = vf.run_model(f"sep_{maxlen}_{sepset}", "MC_Sep.tla", {"MaxLen": maxlen, "SepSet": sepset}, chk.outdir,
                                   workers=12 if chk.tier == "quick" else 16, env_extra={"PRIMS": prims}, timeout=3000)
